@@ -27,7 +27,8 @@ import (
 //	           independent decoder + press/drag/release state machine says.
 //	keyseq     C03: capability strings decode to an assigned key, xterm modifier parameters, control bytes, Alt prefix,
 //	           lone ESC, DEL, concatenation; keytable: prefix-freeness of the built table.
-//	parsechunk C02: the same bytes fed in one read give the same events (classes chunk-*).
+//	parsechunk C02: the same bytes fed in one read give the same events (classes chunk-*); a stream of recognised
+//	           sequences decodes to the concatenation of what each sequence decodes to (classes swallow-*), parsechunk.go.
 
 func init() {
 	tenc.Register()
@@ -50,7 +51,8 @@ func entries() map[string]*terminfo.Terminfo {
 }
 
 // variant of the two known-defect sites the tree under test implements, probed on the real code once per process:
-// "+x11fix" when an X11 motion report without a press no longer decodes to a wheel event, "+keycaps" when the key
+// "+x11fix" when an X11 motion report without a press no longer decodes to a wheel event, "+clipfix" when an OSC 52
+// reply followed by more data in the same read still yields its clipboard event, "+keycaps" when the key
 // capabilities KeyClear / KeyShfInsert / KeyShfDelete of an entry are in its key table.  The suffix is appended to the
 // entry name on generated case lines so that the Lean driver runs the matching model variant.
 var pVariant *string
@@ -64,6 +66,13 @@ func variantSuffix() string {
 		_, all, _ := runFeeds(ti, "UTF-8", 80, 24, []feed{{[]byte("\x1b[M\x40!!"), false}})
 		if len(all) == 1 && all[0] == "M.0.0.0.0" {
 			s += "+x11fix"
+		}
+	}
+	if ti := entries()["xterm-256color"]; ti != nil {
+		// OSC 52 reply followed by one more byte in the same read: the repaired parser cuts at the terminator it found
+		_, all, _ := runFeeds(ti, "UTF-8", 80, 24, []feed{{[]byte("\x1b]52;c;QQ==\ax"), false}})
+		if len(all) == 2 && all[0] == "C.41" {
+			s += "+clipfix"
 		}
 	}
 	for _, ti := range entries() {
@@ -496,6 +505,11 @@ func execParse(line string, chunkOracle bool) h.Result {
 		res.Findings = append(res.Findings, fx...)
 	} else {
 		res.Findings = append(res.Findings, chunkOracleRun(ti, cs, w, hh, fs, all, left)...)
+		fx, tg := swallowOracle(ti, cs, w, hh, fs)
+		res.Findings = append(res.Findings, fx...)
+		for _, t := range tg {
+			tags[t] = true
+		}
 	}
 	for t := range tags {
 		res.Tags = append(res.Tags, t)
@@ -529,7 +543,18 @@ func chunkOracleRun(ti *terminfo.Terminfo, cs string, w, hh int, fs []feed, all 
 	_, whole, wleft := runFeeds(ti, cs, w, hh, []feed{{stream, last}})
 	var out []h.Finding
 	if strings.Join(whole, ",") != strings.Join(all, ",") || wleft != left {
-		out = append(out, h.Finding{Class: "chunk-dependent", Msg: fmt.Sprintf("bytes %s: one read → %v (+%d buffered); %d reads → %v (+%d buffered)", h.Hex(stream), whole, wleft, len(fs), all, left)})
+		// name the class after the kind of event that exists in one decoding only
+		class := "chunk-dependent"
+		for _, e := range append(multisetDiff(whole, all), multisetDiff(all, whole)...) {
+			if strings.HasPrefix(e, "C.") {
+				class = "chunk-dependent-clipboard"
+				break
+			}
+			if strings.HasPrefix(e, "F.") {
+				class = "chunk-dependent-focus"
+			}
+		}
+		out = append(out, h.Finding{Class: class, Msg: fmt.Sprintf("%s bytes %s: one read → %v (+%d buffered); %d reads → %v (+%d buffered)", activeParsers(ti), h.Hex(stream), whole, wleft, len(fs), all, left)})
 	}
 	if last && left != 0 {
 		out = append(out, h.Finding{Class: "chunk-leftover-after-expire", Msg: fmt.Sprintf("%d bytes still buffered after the escape timeout", left)})
@@ -764,9 +789,6 @@ func genMixed(g *h.Gen, eng string, perEntry int) {
 	}
 }
 
-func genParseChunk(g *h.Gen) {
-	genMixed(g, "parsechunk", g.N(300, 5000))
-}
 
 // ---------------------------------------------------------------------------------------------------------------
 // keytable
